@@ -1,7 +1,8 @@
 (* model / spec driver for component Hash (C02).
-   case header:  case <n> <hm|hs|pm> <i|l|s> <cap0> <cap1> ...   (one container variable per capacity)
-   keys: decimal for the integer key types (i = int32, l = int64, u = uint32, p = const void* as its address),
-   lower-case hex bytes for String ("-" = empty). *)
+   case header:  case <n> <hm|hs|pm> <key type> <cap0> <cap1> ...   (one container variable per capacity)
+   keys: decimal for the integer key types (b = int8, B = uint8, h = int16, H = uint16, i = int32, u = uint32, l = int64,
+   q = uint64, p = const void* as its address), lower-case hex bytes for String s ("-" = empty).  A decimal key is
+   converted to the key type like the harness' (T)strtoll(..) does (wrap_<type>), and hashed by hash_<type> = (usize)v. *)
 open Model
 open Zconv
 
@@ -17,6 +18,8 @@ let str_res (show : 'k -> string) (r : 'k res) : string = match r with
   | RIter (Some ((r, k), v)) -> Printf.sprintf "it=%d:%s:%s" (int_of_nat r) (show k) (dec_of_z v)
   | RVal v -> "v=" ^ dec_of_z v
   | RKey k -> "k=" ^ show k
+  | RWalk None -> "w=BAD"
+  | RWalk (Some l) -> "w=[" ^ String.concat " " (List.map (fun (k, v) -> show k ^ ":" ^ dec_of_z v) l) ^ "]"
 
 let str_obs show (i : int) (((sz, e), l) : 'k tobs) : string =
   Printf.sprintf "%d:%s,%d,[%s]" i (dec_of_z sz) (if e then 1 else 0)
@@ -60,6 +63,8 @@ let parse_op (pk : string -> 'k) (toks : string list) : 'k op =
   | ["appall"; x; y] -> OAppendAll (n x, n y)
   | ["rmall"; x; y] -> ORemoveAll (n x, n y)
   | ["setv"; x; k; v] -> OSetVal (n x, pk k, z v)
+  | ["fwd"; x] -> OIterFwd (n x)
+  | ["bwd"; x] -> OIterBack (n x)
   | _ -> failwith ("bad op: " ^ String.concat " " toks)
 
 let model_runner pk show keqb hash kd caps : runner =
@@ -79,9 +84,34 @@ let spec_runner pk show keqb kd caps : runner =
       emit (Printf.sprintf "%s | %s" (str_res show r)
               (String.concat " " (List.mapi (fun i l -> str_obs show i (s_obs l)) st')))) }
 
+(* decimal text of any size (uint64 keys exceed OCaml's int): 9 digits at a time *)
+let z_of_dec (s : string) : z =
+  let neg = String.length s > 0 && s.[0] = '-' in
+  let d = if neg then String.sub s 1 (String.length s - 1) else s in
+  if d = "" then failwith ("bad decimal: " ^ s);
+  String.iter (fun c -> if c < '0' || c > '9' then failwith ("bad decimal: " ^ s)) d;
+  let n = String.length d in
+  let rec pow10 k = if k = 0 then 1 else 10 * pow10 (k - 1) in
+  let rec go acc i =
+    if i >= n then acc
+    else
+      let len = if i = 0 && n mod 9 <> 0 then n mod 9 else 9 in
+      go (Z.add (Z.mul acc (z_of_int (pow10 len))) (z_of_int (int_of_string (String.sub d i len)))) (i + len) in
+  let v = go (z_of_int 0) 0 in
+  if neg then Z.sub (z_of_int 0) v else v
+
+(* key type letter -> (conversion of a decimal to the type, hash overload of Base.hpp) *)
+let int_key_type = function
+  | "b" -> (wrap_int8, hash_int8) | "B" -> (wrap_uint8, hash_uint8)
+  | "h" -> (wrap_int16, hash_int16) | "H" -> (wrap_uint16, hash_uint16)
+  | "i" -> (wrap_int32, hash_int32) | "u" -> (wrap_uint32, hash_uint32)
+  | "l" -> (wrap_int64, hash_int64) | "q" -> (wrap_uint64, hash_uint64)
+  | "p" -> (wrap_uint64, hash_ptr)
+  | s -> failwith ("key type " ^ s)
+
 let () =
   let mode = Sys.argv.(1) and file = Sys.argv.(2) in
-  let show_int k = dec_of_z k and pk_int s = z_of_int (int_of_string s) in
+  let show_int k = dec_of_z k in
   let show_str k = hex_of_bytes k and pk_str s = bytes_of_hex s in
   let on_case cfg = match cfg with
     | kd :: kt :: caps ->
@@ -90,8 +120,10 @@ let () =
           (if mode = "model" then model_runner pk_str show_str bytes_eqb hash_str kd caps
            else spec_runner pk_str show_str bytes_eqb kd caps)
         else
-          (* i = int32, l = int64, u = uint32: hash = (usize)v;  p = const void*: hash = address >> 3 *)
-          (if mode = "model" then model_runner pk_int show_int Z.eqb (if kt = "p" then hash_ptr else hash_int) kd caps
+          (* integer key types: hash = (usize)v;  p = const void*: hash = address >> 3 *)
+          (let (wrap, hash) = int_key_type kt in
+           let pk_int s = wrap (z_of_dec s) in
+           if mode = "model" then model_runner pk_int show_int Z.eqb hash kd caps
            else spec_runner pk_int show_int Z.eqb kd caps)
-    | _ -> failwith "case header: case <n> <hm|hs|pm> <i|l|s> <caps…>" in
+    | _ -> failwith "case header: case <n> <hm|hs|pm> <b|B|h|H|i|u|l|q|p|s> <caps…>" in
   run_cases file on_case (fun r _ toks -> r.step_line toks; r) (fun _ -> ())
